@@ -2086,7 +2086,7 @@ fn image_case(pad: bool, bilinear: bool, opaque: bool, integer: bool) -> u8 {
     if let ShaderStorage::ImageRepeatAlpha(s) = &storage { assert!(s.offset_x == 4 && s.offset_y == -1 && s.alpha == if opaque { 256 } else { 129 }, "integer fast path: offsets = combined translation, alpha256"); }
     shader_kind(&storage)
 }
-// @ob id=K.choose_shader_image props=C13 kind=bounded:16-concrete-configurations tier=quick timeout=900 fns=choose_shader
+// @ob id=K.choose_shader_image props=C13,C03 kind=bounded:16-concrete-configurations tier=quick timeout=900 fns=choose_shader
 // @+ desc="choose_shader image arms on all 16 combinations of (Pad|Repeat, Bilinear|Nearest, alpha 1 | 0.5, combined transform integer translation | scale): the integer-translation fast path is taken exactly when inverse-CTM ∘ source transform is a pure integer translation, with offsets (tx,ty) and alpha256 = alpha byte + 1; otherwise the variant is the one named by (extend, filter, alpha != 255)"
 #[kani::proof]
 #[kani::unwind(6)]
